@@ -403,7 +403,11 @@ val update_nth : nat -> ('a1 -> 'a1) -> 'a1 list -> 'a1 list
 
 val opt_node_eqb : node option -> node -> bool
 
+val scope_restat : edge -> edge
+
 val set_restat : graph -> nat -> graph
+
+val set_restat_old : graph -> nat -> graph
 
 val add_out : edge -> node -> edge
 
@@ -432,9 +436,14 @@ val stmt_used : graph -> node -> nat list -> dd_stmt -> bool
 
 val load_dyndep : graph -> node -> dd_stmt list -> graph result
 
-val dyndep_load : graph -> node -> bytes option -> graph result
+val update_edge_old : graph -> nat -> dd_stmt -> graph result
 
-val ub_self_input : node -> dd_stmt list -> bool
+val load_edges_old :
+  graph -> node -> dd_stmt list -> nat list -> graph -> graph result
+
+val load_dyndep_old : graph -> node -> dd_stmt list -> graph result
+
+val dyndep_load : graph -> node -> bytes option -> graph result
 
 val apply_stmt : edge -> dd_stmt -> edge
 
